@@ -46,6 +46,9 @@ func random(args map[string]string) error {
 	w := &world{etcd: e, plain: plain, sched: gate.New(), clock: map[*clientv3.Client]int{},
 		base: time.Now().Truncate(time.Second).Add(-time.Hour), save: 3, gap: 12}
 	tso.VerifNow = w.now
+	if allowKnown {
+		w.residue = 400 * time.Microsecond
+	}
 	rng := rand.New(rand.NewSource(seed))
 	counts := []int{1, 1, 2, 7, 100, 131071, 131072, 131073, 262143}
 	outcome := func() string {
@@ -142,6 +145,10 @@ func random(args map[string]string) error {
 				}
 				delta := []int{-3, 0, 0, 1, 2, 3, 5, 8, 11, 13, 40}[rng.Intn(11)]
 				tp := phys + delta
+				if n.upd != nil && rng.Intn(2) == 0 {
+					// a reset racing with a parked update lands in the very millisecond the update read from the clock
+					tp = w.getClock(n)
+				}
 				tl := []int{0, 5, int(lg) + 1}[rng.Intn(3)]
 				o := outcome()
 				ev["ev"], ev["p"], ev["l"], ev["o"] = "ResetUser", tp, tl, o
